@@ -168,14 +168,15 @@ def c13_make_replay(binary, sd, kind, invariant, hists, detail, deadline, featur
 
 
 def c13_group(args):
-    binary, sd, g, gsize, d, want_samples = args
+    binary, sd, g, gsize, d, want_samples = args[:6]
+    tag = args[6] if len(args) > 6 else "main"
     half = gsize // 2
     start = g * gsize
     out = {}
     specs = [("p1a", "p1", start, half), ("p1b", "p1", start + half, gsize - half), ("p2", "p1", start, gsize),
              ("p3a", "p3", start, half), ("p3b", "p3", start + half, gsize - half)]
     for name, mode, st, cnt in specs:
-        path = os.path.join(d, "g%d_%s.log" % (g, name))
+        path = os.path.join(d, "g%d_%s_%s.log" % (g, tag, name))
         sim_run(binary, sd, st, cnt, mode, path, viol_dir=os.path.join(d, "viol"),
                 samples=(want_samples if name == "p1a" and g == 0 else 0))
         out[name] = parse_log(path)
@@ -262,7 +263,10 @@ def c13_check(tier, replay=None):
     ngroups = (total + gsize - 1) // gsize
     d = scratch("c13")
     res = pmap(c13_group, [(binary, sd, g, gsize, d, 2) for g in range(ngroups)])
-    sres = pmap(c13_spec_group, [(bins[v], sd, g, gsize, d, v) for v in spec_variants for g in range(ngroups)])
+    # the same three-way protocol under `specialized`, where Rcvar inputs reach the
+    # interpreter by identity (aliasing and sharing between caller and library are real)
+    res_spec = pmap(c13_group, [(bins["n_specialized"], sd, g, gsize, d, 0, "spec") for g in range(ngroups)])
+    sres = pmap(c13_spec_group, [(bins[v], sd, g, gsize, d, v) for v in ["n_sync_specialized"] for g in range(ngroups)])
     acc = Acc()
     issues = []
     for r in res:
@@ -279,6 +283,14 @@ def c13_check(tier, replay=None):
         for it in r["issues"]:
             issues.append((it, r, "stable_default"))
     spec_hist = 0
+    for r in res_spec:
+        spec_hist += r["n"] * 3
+        acc.procs += 5
+        for st in r["stats_p1"]:
+            acc.add_stats({"counters": {k: v for k, v in st["counters"].items() if k.startswith("probe.")},
+                           "shapes": [], "shapes_nontrivial": [], "triples": [], "triples_special": []}, True)
+        for it in r["issues"]:
+            issues.append((it, r, "n_specialized"))
     for r in sres:
         spec_hist += r["n"]
         acc.procs += 1
